@@ -73,8 +73,10 @@ Definition parse_bool (s : list ascii) : bool :=
   existsb (cs_eqb s) (map chars ["1"; "t"; "T"; "TRUE"; "true"; "True"]%string).
 
 (* ------------------------------------------------------------------ *)
-(* GNum: Int / Uint / Float fields, with fmt.Sprint of the parsed default (DefaultValueInterface) if any *)
-Inductive gtype := GTime | GBool | GNum (parsed : option string) | GOther.
+(* GNum: Int / Uint / Float fields, with fmt.Sprint of the parsed default (DefaultValueInterface) if any,
+   and whether the parsed default is a float64 that strconv.ParseFloat of the REPORTED default equals
+   (Go's float parsing is environment: computed by the harness with the same library call) *)
+Inductive gtype := GTime | GBool | GNum (parsed : option string) (same_float : bool) | GOther.
 
 Record field := mk_field {
   f_name : string;
@@ -146,14 +148,14 @@ Definition migrate_column (f : field) (r : reported) : decision :=
       match f_gtype f with
       | GTime => if negb (equal_fold (trim_parens dv) (trim_parens (chars (f_default f)))) then true else alter
       | GBool => negb (Bool.eqb (parse_bool dv) (parse_bool (chars (f_default f))))
-      | GNum p =>
+      | GNum p same_float =>
           (* the column is created from the parsed default: equal to the tag text OR to the parsed
              value needs no change *)
           let a := negb (cs_eqb dv (chars (f_default f))) in
-          match p with
-          | Some s => a && negb (cs_eqb dv (chars s))
-          | None => a
-          end
+          (match p with
+           | Some s => a && negb (cs_eqb dv (chars s))
+           | None => a
+           end) && negb same_float   (* ... nor the same number in another notation *)
       | GOther => negb (cs_eqb dv (chars (f_default f)))
       end
     else alter in
@@ -164,14 +166,29 @@ Definition migrate_column (f : field) (r : reported) : decision :=
 
 (* "already matches": the reported type text is the declared one, nullability, default, comment
    and uniqueness agree (where the dialect reports them) *)
+(* the reported type is the declared one: the same text, or the type name the declaration starts with
+   together with the declared size and precision *)
+Definition type_agrees (f : field) (r : reported) : bool :=
+  let full := trim (lower (chars (f_full f))) in
+  let real := lower (chars (r_type r)) in
+  cs_eqb full real
+  || (has_prefix full real && (r_len r =? f_size f) && (negb (r_prec_ok r) || (f_precision f =? r_prec r))).
+(* the reported default is the declared one: the tag text, or (numeric fields) the parsed value as
+   gorm prints it, or the same number in another notation *)
+Definition default_agrees (f : field) (r : reported) : bool :=
+  let cur := f_hasdef f && (f_defi f || negb (equal_fold (chars (f_default f)) (chars "NULL"))) in
+  Bool.eqb (r_default_ok r) cur
+  && (negb cur || String.eqb (r_default r) (f_default f)
+      || match f_gtype f with
+         | GNum p sf => sf || match p with Some s => String.eqb (r_default r) s | None => false end
+         | _ => false
+         end).
 Definition matches (f : field) (r : reported) : bool :=
-  cs_eqb (trim (lower (chars (f_full f)))) (lower (chars (r_type r)))
+  type_agrees f r
   && (negb (r_nullable_ok r) || negb (Bool.eqb (r_nullable r) (f_notnull f)))
-  && (let cur := f_hasdef f && (f_defi f || negb (equal_fold (chars (f_default f)) (chars "NULL"))) in
-      Bool.eqb (r_default_ok r) cur && (negb cur || String.eqb (r_default r) (f_default f)))
+  && default_agrees f r
   && (negb (r_comment_ok r) || String.eqb (r_comment r) (f_comment f))
   && (negb (r_unique_ok r) || Bool.eqb (r_unique r) (f_unique f)).
-
 
 (* ------------------------------------------------------------------ *)
 (* schema state and AutoMigrate *)
